@@ -2,6 +2,7 @@ import Victron.Model.Proto
 import Victron.Proofs.Frame
 import Victron.Proofs.Scan
 import Victron.Proofs.Loop
+import Victron.Props.C09
 /-
   C05 — Device-reported errors are surfaced, typed and not retried.
   Model: `flagError` (error.go), `getStep`, `Vd.attempt`, the typed accessors. The register API's wrapping
@@ -55,6 +56,13 @@ theorem accessors_surface_error (σ : Vd) (idles : List Bool) (addr : Nat) (e : 
   simp only
   rw [h]
   exact ⟨rfl, rfl, rfl⟩
+
+/-- **API wrapping.** Every register reader of the API returns a device error of the same kind (still
+    matchable) together with the register's name. -/
+theorem api_wraps (tr : Transport) (r : Reg) (e : Err) (hg : tr.get r.address = .err e) :
+    readNumber tr r = .err e r.name ∧ readText tr r = .err e r.name ∧
+    readEnum tr Gen.enums r = .err e r.name ∧ readFieldList tr Gen.fieldLists r = .err e r.name :=
+  C09.transport_error_wrapped tr r e hg
 
 /-- non-vacuity: flag 0x02 with two trailing payload bytes at the first attempt: one frame written -/
 example : (Vd.veCommandGet { port := { replies := [[frameOf (getResponseBody 0xEDF0 2 [1, 2])], [frameOf (getResponseBody 0xEDF0 0 [1, 2])]] } } [true] 0xEDF0).2 = .err .notSupported := by decide
